@@ -1,0 +1,199 @@
+//go:build verif
+
+package opcua
+
+import (
+	"crypto/rsa"
+	"crypto/sha1"
+	"encoding/hex"
+	"fmt"
+	"reflect"
+	"sort"
+	"strings"
+)
+
+// Hooks of the verification framework (/verif, property C23): read-only dumps
+// of a client's effective configuration.  Add-only, compiled with -tags verif.
+
+// VerifLeaf is one scalar of a configuration tree: the selector path from the
+// Config value ("dialer.ClientACK.MaxMessageSize") and its canonical text.
+type VerifLeaf struct {
+	Path  string
+	Value string
+}
+
+// VerifConfigOf returns the configuration a client was built with.
+func VerifConfigOf(c *Client) *Config { return c.cfg }
+
+// VerifNewConfig is newConfig(): the pristine defaults of one client.
+func VerifNewConfig() *Config { return newConfig() }
+
+// VerifDumpConfig lists every scalar reachable from cfg, sorted by path.
+func VerifDumpConfig(cfg *Config) []VerifLeaf {
+	w := &verifWalker{}
+	w.walk(reflect.ValueOf(cfg).Elem(), "", 0)
+	sort.Slice(w.leaves, func(i, j int) bool { return w.leaves[i].Path < w.leaves[j].Path })
+	return w.leaves
+}
+
+// VerifConfigPointers maps the path of every non-nil pointer, slice or map
+// reachable from cfg to its address (to find objects shared between configs).
+func VerifConfigPointers(cfg *Config) map[string]uintptr {
+	w := &verifWalker{ptrs: map[string]uintptr{}}
+	w.walk(reflect.ValueOf(cfg).Elem(), "", 0)
+	return w.ptrs
+}
+
+type verifWalker struct {
+	leaves []VerifLeaf
+	ptrs   map[string]uintptr
+}
+
+func (w *verifWalker) leaf(path, val string) {
+	w.leaves = append(w.leaves, VerifLeaf{Path: path, Value: val})
+}
+
+func verifJoin(path, name string) string {
+	if path == "" {
+		return name
+	}
+	return path + "." + name
+}
+
+var verifRSAKey = reflect.TypeOf(rsa.PrivateKey{})
+
+func (w *verifWalker) walk(v reflect.Value, path string, depth int) {
+	if depth > 10 {
+		w.leaf(path, "<deep>")
+		return
+	}
+	switch v.Kind() {
+	case reflect.Ptr:
+		if v.IsNil() {
+			w.leaf(path, "nil")
+			return
+		}
+		if w.ptrs != nil {
+			w.ptrs[path] = v.Pointer()
+		}
+		if v.Type().Elem() == verifRSAKey {
+			// an opaque caller-supplied key: identity is what matters
+			w.leaf(path, fmt.Sprintf("rsa-key@%d-bit", v.Elem().FieldByName("N").Elem().FieldByName("abs").Len()))
+			return
+		}
+		w.walk(v.Elem(), path, depth+1)
+	case reflect.Interface:
+		if v.IsNil() {
+			w.leaf(path, "nil")
+			return
+		}
+		w.leaf(verifJoin(path, "(type)"), v.Elem().Type().String())
+		w.walk(v.Elem(), path, depth+1)
+	case reflect.Struct:
+		t := v.Type()
+		if t.NumField() == 0 {
+			w.leaf(path, "{}")
+			return
+		}
+		for i := 0; i < t.NumField(); i++ {
+			w.walk(v.Field(i), verifJoin(path, t.Field(i).Name), depth+1)
+		}
+	case reflect.Slice:
+		if v.IsNil() {
+			w.leaf(path, "nil")
+			return
+		}
+		if w.ptrs != nil && v.Len() > 0 {
+			w.ptrs[path] = v.Pointer()
+		}
+		switch v.Type().Elem().Kind() {
+		case reflect.Uint8:
+			b := make([]byte, v.Len())
+			for i := range b {
+				b[i] = byte(v.Index(i).Uint())
+			}
+			h := sha1.Sum(b)
+			w.leaf(path, fmt.Sprintf("bytes[%d]:%s", len(b), hex.EncodeToString(h[:6])))
+		case reflect.String:
+			parts := make([]string, v.Len())
+			for i := range parts {
+				parts[i] = fmt.Sprintf("%q", v.Index(i).String())
+			}
+			w.leaf(path, "["+strings.Join(parts, ",")+"]")
+		default:
+			w.leaf(verifJoin(path, "(len)"), fmt.Sprint(v.Len()))
+			for i := 0; i < v.Len(); i++ {
+				w.walk(v.Index(i), fmt.Sprintf("%s[%d]", path, i), depth+1)
+			}
+		}
+	case reflect.Map:
+		if v.IsNil() {
+			w.leaf(path, "nil")
+			return
+		}
+		if w.ptrs != nil {
+			w.ptrs[path] = v.Pointer()
+		}
+		w.leaf(verifJoin(path, "(len)"), fmt.Sprint(v.Len()))
+	case reflect.Chan, reflect.Func, reflect.UnsafePointer:
+		if v.IsNil() {
+			w.leaf(path, "nil")
+		} else {
+			w.leaf(path, "set")
+		}
+	case reflect.String:
+		w.leaf(path, fmt.Sprintf("%q", v.String()))
+	case reflect.Bool:
+		w.leaf(path, fmt.Sprint(v.Bool()))
+	case reflect.Int, reflect.Int8, reflect.Int16, reflect.Int32, reflect.Int64:
+		w.leaf(path, fmt.Sprint(v.Int()))
+	case reflect.Uint, reflect.Uint8, reflect.Uint16, reflect.Uint32, reflect.Uint64, reflect.Uintptr:
+		w.leaf(path, fmt.Sprint(v.Uint()))
+	case reflect.Float32, reflect.Float64:
+		w.leaf(path, fmt.Sprint(v.Float()))
+	default:
+		w.leaf(path, "<"+v.Kind().String()+">")
+	}
+}
+
+// VerifConfigObject returns the pointer stored at the selector path of cfg
+// ("dialer.ClientACK" -> *uacp.Acknowledge), nil if the path does not lead to
+// a non-nil pointer. The harness uses it to restore package-level defaults
+// between programs.
+func VerifConfigObject(cfg *Config, path string) interface{} {
+	parts := strings.Split(path, ".")
+	var v reflect.Value
+	switch parts[0] {
+	case "dialer":
+		v = reflect.ValueOf(cfg.dialer)
+	case "sechan":
+		v = reflect.ValueOf(cfg.sechan)
+	case "session":
+		v = reflect.ValueOf(cfg.session)
+	default:
+		return nil
+	}
+	for _, name := range parts[1:] {
+		for v.Kind() == reflect.Ptr || v.Kind() == reflect.Interface {
+			if v.IsNil() {
+				return nil
+			}
+			v = v.Elem()
+		}
+		if v.Kind() != reflect.Struct {
+			return nil
+		}
+		v = v.FieldByName(name)
+		if !v.IsValid() {
+			return nil
+		}
+	}
+	if v.Kind() != reflect.Ptr || v.IsNil() || !v.CanInterface() {
+		return nil
+	}
+	return v.Interface()
+}
+
+// VerifSetRandomRequestID installs the (test) stub the RandomRequestID option
+// consults, so that the option is deterministic in the harness; nil removes it.
+func VerifSetRandomRequestID(f func() uint32) { randomRequestID = f }
